@@ -284,6 +284,12 @@ class OctetTuple:
         self.data = data
 
 
+class HexPairs:
+    """["%02x" % b for b in octets(data)]"""
+    def __init__(self, data):
+        self.data = data
+
+
 def json_value_cond(ctx, v):
     """Condition under which a term is a value of the JSON data model (structural where possible)."""
     v = simp(v)
